@@ -285,10 +285,9 @@ def rule_d(ctx: Ctx) -> None:
     ctx.explain('C17.d: ValidationContext.__copy__ gives the copy a private converter (and its namespace map).')
 
 
-def rule_e(ctx: Ctx) -> None:
+def rule_e(ctx: Ctx, rule: str = 'C17.e') -> None:
     """unmap_qname resolves a key with the declarations of the node itself laid *over* the enclosing scope: where both bind a
     prefix (or the default namespace) the node's own declaration wins, and the mapper's map is not modified."""
-    rule = 'C17.e'
     f = ctx.idx.method(NM, 'unmap_qname')
     ctx.analysed(f.qualname)
     g = cfg_of(ctx, f)
@@ -326,7 +325,7 @@ def rule_e(ctx: Ctx) -> None:
         ctx.ob(rule, 'unmap_qname: the declarations passed for the node override the bindings of the enclosing scope (and the mapper is left untouched)',
                f.loc(n.ast), bool(verdict), '' if verdict else f'`{text(n.ast)[:70]}` - {why}: a child that redeclares a prefix (or the default namespace) of an '
                'ancestor is resolved with the ancestor\'s URI and encoded in the wrong namespace', key='unmap_qname|overlay-precedence')
-    ctx.explain('C17.e: the overlay map of NamespaceMapper.unmap_qname is recognised in three forms (copy+update, dict display with '
+    ctx.explain(f'{rule}: the overlay map of NamespaceMapper.unmap_qname is recognised in three forms (copy+update, dict display with '
                 '** operands, ChainMap) and the operand that wins a collision must be the one derived from `xmlns`.')
 
 
